@@ -36,6 +36,9 @@ func randBuf(rng *rand.Rand, bits int64) []byte {
 	} else {
 		rng.Read(b)
 	}
+	if bits%8 != 0 { // the buffer ends inside its last byte: the bits beyond do not exist (read as zero)
+		b[len(b)-1] &= 0xff << (8 - bits%8)
+	}
 	return b
 }
 
@@ -54,6 +57,7 @@ func emitAll(js []*job, outPath string) {
 		if j.want != nil && j.target != j.want { // navigation by name reached another value (duplicate field names): not a dump of the intended value
 			continue
 		}
+		debugText(j)
 		j.events(out)
 		dumps++
 	}
@@ -265,7 +269,7 @@ func randDriver(n int, outPath, repo string) {
 }
 
 func main() {
-	if len(os.Args) < 4 {
+	if len(os.Args) < 3 {
 		kit.Fatalf("usage: c10 bin|progs|rand|json|parse ...")
 	}
 	switch os.Args[1] {
@@ -281,6 +285,8 @@ func main() {
 		randDriver(kit.Atoi(os.Args[2]), os.Args[3], repo)
 	case "json":
 		jsonCases(os.Args[2], os.Args[3])
+	case "demo":
+		demo(os.Args[2])
 	case "parse":
 		parseOnly(kit.Atoi(os.Args[2]), os.Args[3] == "1", os.Args[4], os.Args[5])
 	default:
